@@ -367,6 +367,13 @@ pub fn all_seeds_with(radius2: bool) -> Vec<(String, Target, V, Vec<u8>)> {
             let wire = wire.canon();
             let bytes = t.bytes(&wire);
             out.push((format!("{}:full-with-legacy-url", t.name()), t.clone(), wire, bytes));
+            // a user icon that is dropped (documented): longer than 128 bytes but fewer characters
+            let mut wire = plan.build(plan.full_mask(), &[]);
+            if let Some(p) = crate::treewalk::get_mut(&mut wire, &[crate::treewalk::Step::Key(V::U(3)), crate::treewalk::Step::Key(V::t("icon"))]) {
+                *p = V::t(&"\u{e9}".repeat(65));
+            }
+            let bytes = t.bytes(&wire);
+            out.push((format!("{}:full-with-dropped-icon", t.name()), t.clone(), wire, bytes));
             // parameter entries of a foreign credential type before and between the known ones
             let mut wire = plan.build(plan.full_mask(), &[]);
             if let Some(p) = crate::treewalk::get_mut(&mut wire, &[crate::treewalk::Step::Key(V::U(4))]) {
